@@ -11,6 +11,9 @@ CLAIMED = {
  "C05": ("typestate / guard-dominance analysis over CFG + call graph (must-facts dataflow, backwards argument tracing)",
          "Decides on all paths of the code: permitted predecessor states of every self.state writer, single guarded close-frame site, state==OPEN guard of every send API, legality of every close code/reason reaching sendCloseFrame, ownership and mutual exclusion of the close notification, closing-timer pairing. Does not decide the behaviour under all event interleavings or real-time bounds (runtime schedules).",
          "3 C05"),
+ "C07": ("acceptance-dominance (must-facts at the acceptance node on the CFG), data-flow rules for the accept digest / request construction, regex-AST anchoring check, interprocedural may-raise (exception-escape) analysis with taint and guard discharge",
+         "Decides on all paths: every RFC 6455 section 4 obligation holds as a must-fact where the server hands the request to onConnect and where the client sets state = OPEN (17 + 10 obligations plus structural ones for token flags, duplicate detection, origin policy, extension handling), failHandshake always ends processing; the accept digest is SHA-1(key + RFC GUID) of the validated / sent key; origin patterns are anchored and matched against the whole origin; the server's answer is a subset of the offer; the client request is built from parse_url components; no exception caused by a risky library operation on peer-controlled data can leave the handshake entry points. Does not decide acceptance of exactly the HTTP grammar for arbitrary octets.",
+         "3 C07"),
  "C16": ("guard-dominance rules on CFG/must-facts (limit test extension, gate flag ordering, must-pass-through of the send-side test), API-pairing rule for bounded decompress",
          "Decides on all paths: the receive-side limit test is `0 < limit < size` (strict, 0 disables) on the running total, sits at frame begin before any payload octet is processed, fails with 1009; every buffer append / delivery is gated by `not failedByMe`; the send-side test dominates every frame write and compares the post-compression length; a bounded decompress() must inspect unconsumed_tail (one known finding: permessage-deflate truncates). Does not decide run-time interaction with fragment spreading.",
          "3 C16"),
